@@ -265,3 +265,13 @@ func RecvNamed(f *types.Func) *types.Named {
 	n, _ := t.(*types.Named)
 	return n
 }
+
+// EnclosingDecl returns the declared module function whose source range contains pos.
+func (p *Prog) EnclosingDecl(pos token.Pos) *FuncDecl {
+	for _, d := range p.Funcs {
+		if d.Decl.Pos() <= pos && pos < d.Decl.End() {
+			return d
+		}
+	}
+	return nil
+}
